@@ -430,6 +430,7 @@ func runC11(c *Ctx) {
 							if bb.Op == token.NEQ {
 								return "prefixSet"
 							}
+							return "!prefixSet"
 						}
 					}
 				}
